@@ -239,6 +239,9 @@ class Graph(object):
                 return None
             if d.rv.k == "discr" and d.rv.place is not None and d.rv.place.is_local() and d.rv.place.local in self.flags and not neg:
                 return (self.flags.index(d.rv.place.local), "tag")
+            if d.rv.k == "discr" and d.rv.place is not None and not neg and [p for p in d.rv.place.proj if p != "*"] == [] \
+                    and d.rv.place.local in self.alias:
+                return (self.alias[d.rv.place.local], "tag")
             if d.rv.k == "discr" and d.rv.place is not None and not d.rv.place.is_local() and not neg:
                 fs = d.rv.place.fields()
                 key = (d.rv.place.local, fs[-1]) if fs else None
